@@ -1089,7 +1089,7 @@ static int rtr_sync_receive_and_store_pdus(struct rtr_socket *rtr_socket)
 				snprintf(txt, sizeof(txt),
 					 "Expected session_id: %u, received session_id. %u in EOD PDU",
 					 rtr_socket->session_id, eod_pdu->session_id);
-				rtr_send_error_pdu_from_host(rtr_socket, pdu, RTR_MAX_PDU_LEN, CORRUPT_DATA, txt,
+				rtr_send_error_pdu_from_host(rtr_socket, pdu, eod_pdu->len, CORRUPT_DATA, txt,
 							     strlen(txt) + 1);
 				rtr_change_socket_state(rtr_socket, RTR_ERROR_FATAL);
 				retval = RTR_ERROR;
@@ -1471,7 +1471,8 @@ static int interval_send_error_pdu(struct rtr_socket *rtr_socket, void *pdu, uin
 		maximum);
 	const char txt[] = "Interval value out of range";
 
-	return rtr_send_error_pdu(rtr_socket, pdu, RTR_MAX_PDU_LEN, CORRUPT_DATA, txt, strlen(txt) + 1);
+	return rtr_send_error_pdu_from_host(rtr_socket, pdu, ((struct pdu_header *)pdu)->len, CORRUPT_DATA, txt,
+					    strlen(txt) + 1);
 }
 
 static int rtr_send_error_pdu_from_network(const struct rtr_socket *rtr_socket, const void *erroneous_pdu,
